@@ -4,6 +4,9 @@ import json, os
 V = "/verif"
 CLAIMED = {
  # id: (clause text, technique, level_note, design_ref)
+ "C16": ("Decides the structural fee/gas mechanisms for every transaction and block at once: the gas-price equality and minimum-fee guards (and the intrinsic-gas guard for contracts) lie on every success path of validation and use the node's governance controller; the routing decision table shows every natively executed transaction is debited exactly gas-limit x price once and reports GasUsed = gas limit; on the EVM route gas limit, governance price and amount reach the message unchanged and GasUsed is the result's UsedGas; deliverTxSync adds GasToFee(GasUsed, governance price) only on the success branch and on every success; the fee sum has a closed set of writers, starts at zero in a context created afresh per block, and EndBlock credits exactly SumFee() to the header's proposer in the consensus overlay. Numeric sums and go-ethereum's gas accounting are not covered.",
+         "guard dominance on every success path + exhaustive routing decision table over the CFGs + who-may-write/who-may-call + argument data-flow checks on the EVM route and the proposer credit",
+         "trusted: go/ssa, call graph, go-ethereum gas accounting, uint256", "DESIGN.md §3 C16"),
  "C04": ("Decides the structural mechanisms of nonce handling for every account and history at once: CheckNonce is a pure equality guard applied to the sender and the tx nonce before any controller runs; Account.Nonce has a closed set of writers (+1 primitive, EVM write-back, decode) with closed sets of callers; a decision table over (tx type x receiver-has-code x exec), evaluated exhaustively on the CFGs of runTrx and postRunTrx, shows that exactly the natively executed transactions consume exactly one nonce of ctx.Sender (followed by marking the account) on every success path and EVM-routed ones none; on the EVM route the transaction's own nonce reaches the message with nonce checking enabled and Finish writes the EVM's nonce back. The arithmetic consequence over a history is not computed.",
          "who-may-write / who-may-call rules over the call graph + guard dominance + exhaustive abstract evaluation (decision table) of the routing CFGs",
          "trusted: go/ssa, call graph, go-ethereum's nonce check; client-side packages (libs/web3, sfeeder, cmd) are outside the who-may-call scope", "DESIGN.md §3 C04"),
